@@ -62,7 +62,17 @@ def seeded_table():
                 break
         rows.append("| %s | %s | %s | %s | %s |" % (name, m.get("property"), str(m.get("needs", "")).replace("|", "\\|").replace("\n", " ")[:260], ds, fr.replace("|", "\\|")))
     return "\n".join(rows)
-gens = {"fixed": fixed_table, "open": open_table, "seeded": seeded_table, "props": props_table}
+def propnotes():
+    out = []
+    for i in range(1, 21):
+        pid = "C%02d" % i
+        try: m = json.load(open(os.path.join(V, "manifest.d", pid + ".json")))
+        except Exception: continue
+        lc = m.get("level_claimed", {})
+        out.append("**%s** — *technique:* %s\n\n*What the theorems carry and what ties them to the code:* %s\n\n*Trusted base / notes:* %s\n" % (
+            pid, m.get("technique", ""), lc.get("text", ""), m.get("level_note", "")))
+    return "\n".join(out)
+gens = {"fixed": fixed_table, "open": open_table, "seeded": seeded_table, "props": props_table, "propnotes": propnotes}
 p = os.path.join(V, "DESIGN.md")
 s = open(p).read()
 for k, fn in gens.items():
